@@ -627,6 +627,7 @@ func registerNatives(P *Program) {
 	})
 	reg("time.Sleep", nop)
 
+	registerStrconvNatives(P, reg)
 	registerReflectNatives(P, reg)
 	registerThreadNatives(P, reg)
 }
